@@ -34,8 +34,10 @@ def sameLength (ls : List (List Val)) : Bool :=
   | [] => true
   | l :: ls => ls.all (fun x => x.length == l.length)
 
-def sameLengthOf : Option (List (List Val)) → Bool
-  | some ls => sameLength ls
+/-- the backward walk of a Zip over inputs with these sequences is right: equal lengths, or one input empty (then
+    Zip_Iter_Last answers Terminal at once) -/
+def zipBwdOk : Option (List (List Val)) → Bool
+  | some ls => sameLength ls || ls.any List.isEmpty
   | none => false
 
 /-! ### what is proved of one walk of one object -/
@@ -268,7 +270,7 @@ def dirOf : Expr → Lvl × Lvl
       | none => (.no, .no)
     | none => (.no, .no)
   | .zip es => (if allFwd es then .run else .no,
-                if allBwd es && sameLengthOf (defOfList es) then .run else .no)   -- F12 otherwise
+                if allBwd es && zipBwdOk (defOfList es) then .run else .no)   -- F12 otherwise
   | .enum e => ((dirOf e).1.cap, (dirOf e).2.cap)
   | .filter e _ _ => match defOf e with
     | some l => if l.length < filterFuel then dirOf e else (.no, .no)
@@ -419,9 +421,14 @@ theorem denote_dir : ∀ (e : Expr) (l : List Val), defOf e = some l →
         · simp only [dirOf, hs]
           split
           · next hb =>
-            simp only [Bool.and_eq_true, sameLengthOf] at hb
-            obtain ⟨n, hn⟩ := sameLength_spec ls hb.2
-            exact emb_bwdAs _ _ (zip_bwdAs Is ls hIs n hn (hB hb.1))
+            simp only [Bool.and_eq_true, zipBwdOk, Bool.or_eq_true] at hb
+            rcases hb.2 with hsame | hemp
+            · obtain ⟨n, hn⟩ := sameLength_spec ls hsame
+              exact emb_bwdAs _ _ (zip_bwdAs Is ls hIs n hn (hB hb.1))
+            · have hex : ∃ l ∈ ls, l = [] := by
+                obtain ⟨l, hl, he⟩ := List.any_eq_true.mp hemp
+                exact ⟨l, hl, List.isEmpty_iff.mp he⟩
+              exact emb_bwdAs _ _ (zip_bwdAs_of_empty Is ls hIs (hB hb.1) hex)
           · trivial
         · have hz := zipLen_of_all Is ls (hlens (by simpa [Expr.hasLen] using hh))
           simp only [embI, zipI, hz, List.length_map]
